@@ -95,9 +95,24 @@ func c04ResolveRoles(c *core.Ctx) *c04Roles {
 		if fo == nil {
 			return false
 		}
-		if rv := fo.Type().(*types.Signature).Recv(); rv != nil {
+		sig := fo.Type().(*types.Signature)
+		if rv := sig.Recv(); rv != nil {
 			if n, ok := c04Deref(rv.Type()).(*types.Named); ok && n.Obj().Pkg() != nil && n.Obj().Pkg().Path() == Mod+c04sr && n.Obj().Name() == "ServiceRegistry" {
 				return true
+			}
+			// through an interface put in front of the registry: a method that yields a
+			// serviceregistry.ServiceWatcher or the instance map
+			for i := 0; i < sig.Results().Len(); i++ {
+				rt := sig.Results().At(i).Type()
+				if n, ok := rt.(*types.Named); ok && n.Obj().Pkg() != nil && n.Obj().Pkg().Path() == Mod+c04sr && n.Obj().Name() == "ServiceWatcher" {
+					return true
+				}
+				if r.instMap != nil && types.Identical(rt, r.instMap) && fo.Pkg() != pkg.Types {
+					return true
+				}
+				if r.instMap != nil && types.Identical(rt, r.instMap) && types.IsInterface(rv.Type()) {
+					return true
+				}
 			}
 		}
 		return false
